@@ -173,7 +173,7 @@ def _text_methods(ctx):
     return out
 
 
-def renumber_after_mutation(ctx, rule):
+def renumber_after_mutation(ctx, rule, floor=2):
     """R15.d: every Text method that replaces / filters `words` renumbers offsets afterwards"""
     tm = _text_methods(ctx)
     n = 0
@@ -225,7 +225,7 @@ def renumber_after_mutation(ctx, rule):
                      "Text::%s changes `words` (%s) without renumbering word offsets afterwards" % (name, sorted(set(m for _, m in muts))),
                      {"witness": "title 'a $ b': the word after the dropped one keeps its old offset and the match "
                                  "vectors are indexed out of bounds"})
-    ctx.floor(rule, "word_list_mutators", n, 2)
+    ctx.floor(rule, "word_list_mutators", n, floor)
 
 
 def drop_empty_after_strip(ctx, rule):
